@@ -3,7 +3,8 @@ import CnbVerif.Lemmas.RmTree5
 # C11 — deleting or recreating a layer never touches anything outside that layer
 
 Model: `Model/RmTree.lean` — a file system with symlinks and permission modes, path resolution as the kernel does it,
-`remove_dir_recursively` (as repaired for D4: a path that is itself a symlink is unlinked, not descended into),
+`remove_dir_recursively` (as repaired for D4 and D8: a path that is not a directory — a symlink, a regular file — is
+unlinked as such, never `chmod`-ed, never descended into),
 `delete_layer`, and the three public operations that delete and recreate a layer. Spec: `Spec/Frame.lean` — `Frame`
 (everything outside the layer's own paths is exactly as it was: kind, mode, content, link target), `Gone`, `Recreated`,
 and their executable forms `judgeDelete` / `judgeRequest`, which are what judges the real code's snapshots.
@@ -11,16 +12,16 @@ and their executable forms `judgeDelete` / `judgeRequest`, which are what judges
 Every theorem is for **every** file system state `t` (any depth, any modes, links to files or directories inside or
 outside the layer, relative or absolute, dangling, cyclic, the layer path itself a link, **hard links**: names inside
 the layer sharing an inode with names outside it, with each other, or the other way round), every layer name, as root
-and as an unprivileged caller, and whether or not the call succeeds. The hypotheses on the state: the layers directory
-is a real directory (the platform hands the buildpack one); for the frame theorems `<layers>/<n>` itself is not a regular
-file that has a second name (`LayerNotShared`; `shared_top_counterexample` shows what the code does to such a file:
-its `chmod 0777` goes through to the inode before `read_dir` fails); completeness additionally needs the state to be a
-tree (`WF`: a recorded path's parent is a recorded directory) — snapshots always are.
+and as an unprivileged caller, and whether or not the call succeeds — also when `<layers>/<n>` itself is a regular file,
+with one name or with a second name outside the layer (`d8_repaired`; `d8_counterexample` shows what the code did to such
+a file before the repair of D8: its `chmod 0777` went through to the inode before `read_dir` failed). The one hypothesis on
+the state is that the layers directory is a real directory (the platform hands the buildpack one); completeness
+additionally needs the state to be a tree (`WF`: a recorded path's parent is a recorded directory) — snapshots always are.
 
 *Hard links.* A file with several names is the node `hard ino mode content` under each name; `Frame` compares whole
 nodes, so "exactly as it was" covers the mode and the content of an outside name whose inode also has a name inside the
-layer. What carries it: the recursion `chmod`s only directories (and, at the top, the path it was given) and removes
-everything else by `unlink`, which takes the *name* away and nothing else (`unlink_keeps_other_names`).
+layer. What carries it: the recursion `chmod`s only directories and removes everything else — at the top as well as
+below — by `unlink`, which takes the *name* away and nothing else (`unlink_keeps_other_names`).
 
 *Partial (non-root):* permission failures are modelled coarsely (owner bits; search on directories walked through, read
 to list, write+search on the parent to add or remove an entry; the caller owns every node). The theorems hold for both
@@ -32,16 +33,13 @@ open CnbVerif CnbVerif.RmTree CnbVerif.Spec.Frame
 /-- the layers directory is a real directory -/
 abbrev LayersDir (t : FS) : Prop := isDirAt t [layersName] = true
 
-/-- `<layers>/<n>` is not a regular file that has a second name (a directory, a symlink, a private file, absent: all fine) -/
-abbrev LayerNotShared (t : FS) (n : Name) : Prop := isHardAt t (layerPath n) = false
-
 /-- **M1 (frame of `delete_layer`).** Whatever the layer contains and however the call ends — success or failure
 half-way — every path outside `<layers>/<n>`, `<layers>/<n>.toml` and the layer's SBOM files has exactly the node it
 had before: same kind, mode, content, link target — also when its inode has further names inside the layer (same inode,
 same mode, same content). -/
-theorem delete_frame (root : Bool) (t : FS) (n : Name) (hL : LayersDir t) (hN : LayerNotShared t n) :
+theorem delete_frame (root : Bool) (t : FS) (n : Name) (hL : LayersDir t) :
     ∀ p, outside n p = true → fget (deleteLayer root t n).2 p = fget t p :=
-  deleteLayer_frame root t n hL hN
+  deleteLayer_frame root t n hL
 
 /-- **M2 (completeness of `delete_layer`).** If the call succeeds, none of the layer's own paths exists any more: not
 the directory, nothing below it, not `<n>.toml`, no SBOM file. -/
@@ -51,21 +49,20 @@ theorem delete_complete (root : Bool) (t : FS) (n : Name) (hwf : WF t) (hL : Lay
   deleteLayer_gone root t n hL (wf_below t hwf (layerPath n) (layerPath_ne n)) hok
 
 /-- M1 + M2 in the form the oracle evaluates on two snapshots. -/
-theorem delete_meets_oracle (root : Bool) (t : FS) (n : Name) (hwf : WF t) (hL : LayersDir t) (hN : LayerNotShared t n) :
+theorem delete_meets_oracle (root : Bool) (t : FS) (n : Name) (hwf : WF t) (hL : LayersDir t) :
     judgeDelete n (decide ((deleteLayer root t n).1 = .ok ())) t (deleteLayer root t n).2 = true := by
   unfold judgeDelete
-  rw [frameB_of_frame (deleteLayer_frame root t n hL hN)]
+  rw [frameB_of_frame (deleteLayer_frame root t n hL)]
   by_cases hok : (deleteLayer root t n).1 = .ok ()
   · simp [hok, goneB_of_gone (delete_complete root t n hwf hL hok)]
   · simp [hok]
 
-/-- **M1 for the recursion itself.** `remove_dir_recursively p` on any path whose parents are real directories (and that
-is not itself a regular file with a second name) changes nothing that is neither `p` nor below `p` — in particular
-nothing a symlink inside (or at) `p` points to, and no other name of an inode that has a name below `p`. -/
-theorem remove_dir_recursively_frame (root : Bool) (fuel : Nat) (t : FS) (p : Path) (hne : p ≠ []) (hc : Canon t p)
-    (hN : isHardAt t p = false) :
+/-- **M1 for the recursion itself.** `remove_dir_recursively p` on any path whose parents are real directories changes
+nothing that is neither `p` nor below `p` — in particular nothing a symlink inside (or at) `p` points to, and no other
+name of an inode that has a name at or below `p`. -/
+theorem remove_dir_recursively_frame (root : Bool) (fuel : Nat) (t : FS) (p : Path) (hne : p ≠ []) (hc : Canon t p) :
     ∀ k, isPre p k = false → fget (rmRec root fuel t p).2 k = fget t k :=
-  rmRec_untouched root fuel t p hne hc hN
+  rmRec_untouched root fuel t p hne hc
 
 /-- **Removing a name leaves the inode's other names alone.** Whatever `remove_file p` resolves to, every other recorded
 path — among them the other names of the same inode — keeps exactly its node: same inode, same mode, same content. -/
@@ -92,9 +89,9 @@ theorem unlink_keeps_other_names (root : Bool) (t t' : FS) (p : Path) (h : unlin
 /-- **M3 (frame of the public operations).** `uncached_layer`, `cached_layer` with a `DeleteLayer` decision and the
 trait API's `handle_layer` with `Recreate` — reading the layer, deleting it, creating it anew, wherever they stop —
 leave every path outside the layer's own exactly as it was. -/
-theorem request_frame (root : Bool) (api : Api) (t : FS) (n : Name) (hL : LayersDir t) (hN : LayerNotShared t n) :
+theorem request_frame (root : Bool) (api : Api) (t : FS) (n : Name) (hL : LayersDir t) :
     ∀ p, outside n p = true → fget (request root api t n).2 p = fget t p :=
-  request_frame_lemma root api t n hL hN
+  request_frame_lemma root api t n hL
 
 /-- **M3 (the layer's own entries are gone).** When such an operation reports having deleted an existing layer and
 succeeds, all former entries are gone and a fresh empty layer stands in their place: a real directory with nothing
@@ -107,21 +104,19 @@ theorem request_recreated (root : Bool) (api : Api) (t : FS) (n : Name) (hwf : W
   exact request_recreated_lemma root api t n hL (wf_below t hwf (layerPath n) (layerPath_ne n)) hok
 
 /-- M3 in the form the oracle evaluates on the two snapshots of a request. -/
-theorem request_meets_oracle (root : Bool) (api : Api) (t : FS) (n : Name) (hwf : WF t) (hL : LayersDir t)
-    (hN : LayerNotShared t n) :
+theorem request_meets_oracle (root : Bool) (api : Api) (t : FS) (n : Name) (hwf : WF t) (hL : LayersDir t) :
     judgeRequest n (freshDoc api) (decide ((request root api t n).1 = .ok true)) t (request root api t n).2 = true := by
   unfold judgeRequest
-  rw [frameB_of_frame (request_frame_lemma root api t n hL hN)]
+  rw [frameB_of_frame (request_frame_lemma root api t n hL)]
   by_cases hok : (request root api t n).1 = .ok true
   · simp [hok, recreatedB_of_recreated (request_recreated root api t n hwf hL hok)]
   · simp [hok]
 
 /-- M3 over an abstract creating step: deleting a layer and then doing anything that only writes the layer's own paths
 leaves everything else as it was. -/
-theorem recreate_frame_abstract (root : Bool) (t : FS) (n : Name) (hL : LayersDir t) (hN : LayerNotShared t n)
-    (create : FS → FS)
+theorem recreate_frame_abstract (root : Bool) (t : FS) (n : Name) (hL : LayersDir t) (create : FS → FS)
     (hcreate : ∀ s, Frame n s (create s)) : Frame n t (create (deleteLayer root t n).2) :=
-  frame_trans (deleteLayer_frame root t n hL hN) (hcreate _)
+  frame_trans (deleteLayer_frame root t n hL) (hcreate _)
 
 /-- The SBOM file names `delete_layer` removes (table regenerated from `libcnb/src/sbom.rs`) are the specification's. -/
 theorem sbom_paths_tied (n : Name) : sbomPaths n = layerSboms n := (layerSboms_eq n).symm
@@ -132,13 +127,7 @@ theorem not_found_means_absent (root : Bool) (fuel : Nat) (t : FS) (p : Path) (h
     (h : (rmRec root fuel t p).1 = .error .notFound) : fget t p = none := by
   cases hg : fget t p with
   | none => rfl
-  | some v =>
-    cases hh : isHardAt t p with
-    | false => exact absurd h (rmRec_ne_notFound root fuel t p hne hc hh (by simp [hg]))
-    | true =>
-      cases fuel with
-      | zero => simp [rmRec] at h
-      | succ f => rcases rmRec_hard_fails root f t p hne hc hh with e | e <;> · rw [e] at h; cases h
+  | some v => exact absurd h (rmRec_ne_notFound root fuel t p hne hc (by simp [hg]))
 
 /-- The model's recursion carries a depth budget (`fuel`) only to be a total function; it is never exhausted, so
 "success" in M2/M3 is not narrowed by it and a failure of the model is always a failure of a system call. -/
@@ -185,8 +174,7 @@ def hardLinked : FS :=
 
 /-- non-vacuity of the hard-link half of M1–M3: the hypotheses hold of `hardLinked`; as root and as an unprivileged
 owner the deletion succeeds and the outside names of the shared inodes keep inode, mode and content -/
-example : WF hardLinked ∧ LayersDir hardLinked ∧ LayerNotShared hardLinked [97] :=
-  ⟨wf_of_wfB (by decide), by decide, by decide⟩
+example : WF hardLinked ∧ LayersDir hardLinked := ⟨wf_of_wfB (by decide), by decide⟩
 
 example : (deleteLayer true hardLinked [97]).1 = .ok () ∧ (deleteLayer false hardLinked [97]).1 = .ok () ∧
     (deleteLayer false hardLinked [97]).2 =
@@ -205,13 +193,32 @@ def sharedTop : FS :=
   [([layersName], .dir 0o755), ([layersName, [97]], .hard 1 0o444 [1]), ([layersName, tomlName [97]], .file 0o644 [84]),
    ([[99]], .dir 0o700), ([[99], [5]], .hard 1 0o444 [1])]
 
-/-- **Why `LayerNotShared` is asked for.** `remove_dir_recursively` sets mode 0777 on the path it is given before it
-lists it; on a regular file that has a second name outside the layer the mode of that outside name becomes 0777, then
-`read_dir` fails. (Outside the property's quantifier — layer *trees*, or the layer path a symlink — and reported.) -/
-theorem shared_top_counterexample :
-    (deleteLayer true sharedTop [97]).1 = .error .notDir ∧
-    fget (deleteLayer true sharedTop [97]).2 [[99], [5]] = some (.hard 1 0o777 [1]) ∧
-    frameB [97] sharedTop (deleteLayer true sharedTop [97]).2 = false := by decide
+/-- **D8.** The code before the repair (only a symlink was unlinked as such): `remove_dir_recursively` set mode 0777 on
+the path it was given before listing it; on a regular file that has a second name outside the layer the mode of that
+outside name became 0777, then `read_dir` failed. -/
+theorem d8_counterexample :
+    (deleteLayerMid true sharedTop [97]).1 = .error .notDir ∧
+    fget (deleteLayerMid true sharedTop [97]).2 [[99], [5]] = some (.hard 1 0o777 [1]) ∧
+    frameB [97] sharedTop (deleteLayerMid true sharedTop [97]).2 = false := by decide
+
+/-- **D8 repaired.** The same tree under the repaired code (a path that is not a directory is unlinked as such): the
+layer's name of the inode goes, the outside name keeps inode, mode and content, the deletion and the requests succeed —
+as root and as an unprivileged owner. (An instance of M1–M3, which now hold without any condition on the layer path.) -/
+theorem d8_repaired :
+    (deleteLayer true sharedTop [97]).1 = .ok () ∧ (deleteLayer false sharedTop [97]).1 = .ok () ∧
+    (deleteLayer false sharedTop [97]).2 = [([layersName], .dir 0o755), ([[99]], .dir 0o700), ([[99], [5]], .hard 1 0o444 [1])] ∧
+    frameB [97] sharedTop (deleteLayer true sharedTop [97]).2 = true ∧
+    (request false .handle sharedTop [97]).1 = .ok true ∧
+    fget (request false .handle sharedTop [97]).2 [[99], [5]] = some (.hard 1 0o444 [1]) := by decide
+
+/-- `<layers>/a` a private regular file without write permission: it is unlinked (never `chmod`-ed), the request
+recreates the layer as a directory -/
+example :
+    let t : FS := [([layersName], .dir 0o755), ([layersName, [97]], .file 0 [1]), ([layersName, tomlName [97]], .file 0o644 [84]),
+      ([layersName, [98]], .dir 0o700)]
+    (deleteLayer false t [97]).1 = .ok () ∧ (deleteLayer false t [97]).2 = [([layersName], .dir 0o755), ([layersName, [98]], .dir 0o700)] ∧
+    (request false .uncached t [97]).1 = .ok true ∧
+    fget (request false .uncached t [97]).2 [layersName, [97]] = some (.dir 0o755) := by decide
 
 /-- A layer with a read-only nested directory (`r`, mode 0500, holding a file), a non-searchable one (`z`, mode 000),
 a relative link to an outside directory, an absolute link to an outside file, a two-link cycle, a dangling link, a
